@@ -99,6 +99,12 @@ class Disk:
             self.removed_at[k] = None
 
 
+def validated(c, vi):
+    """a value the node can have validated: parseable header, plaintext shorter than max_value_bytes"""
+    mvb = c["cfg"].get("max_value_bytes")
+    return header_ok(c["vals"][vi]) and (mvb is None or len(c["vals"][vi]) // 2 < mvb)
+
+
 def oracle(c, o):
     """C02 stated on what the real store did across each crash + re-open."""
     if o is None:
@@ -137,7 +143,7 @@ def oracle(c, o):
                 continue
             # (1) from the history alone
             e = disk.expect(k, o["names"])
-            if e is not None and e[0] == "value" and header_ok(c["vals"][e[1]]):
+            if e is not None and e[0] == "value" and validated(c, e[1]):
                 if post["gets"][k] != e[1] or k not in listed:
                     v.append(("restart-lost-completed-write", "step %d: the last write of key %d (value %d) had completed before the "
                               "crash and the key was not removed afterwards; after the restart get returns %s, listed: %s"
@@ -149,7 +155,7 @@ def oracle(c, o):
             # (2) from the directory as it was at the crash
             if k in pre_files:
                 val, ln = pre_files[k]
-                if val != NF and header_ok(c["vals"][val]):
+                if val != NF and validated(c, val):
                     if post["gets"][k] != val or k not in listed:
                         v.append(("restart-lost-completed-write", "step %d: the file of key %d held the completed write of value %d "
                                   "at the crash; after the restart get returns %s, listed: %s"
@@ -209,6 +215,24 @@ def gen(ctx):
         ops += rng.choice([[{"op": "settle"}], [{"op": "step"}] * rng.randrange(0, 6)])
         ops += [{"op": "crash", "tears": []}, {"op": "get", "k": k}, {"op": "settle"}, {"op": "crash", "tears": []}]
         cases.append(mk_case(rng, keys, vals, ops, rng.choice([1, 16384]), 25, "remove-in-notification-window"))
+    # values at the size limit: put() accepts a PLAINTEXT shorter than max_value_bytes, the file holds the
+    # ciphertext (+16): lengths max-1, max-15, max-16, max-17 (and max, max+1 which a node never validates)
+    for i in range(12 if quick else 120):
+        mvb = rng.choice([64, 100, 256])
+        keys = gen_keys(rng, 3, False)
+        lens = [mvb - 1, mvb - 15, mvb - 16, mvb - 17, mvb - 2, mvb, mvb + 1, 10]
+        rng.shuffle(lens)
+        lens = lens[:4] + [mvb - 1]
+        vals = [bytes([0x91, rng.choice([1, 5, 2])]) + bytes(rng.getrandbits(8) for _ in range(n - 2)) for n in lens]
+        ops = []
+        for j in range(rng.randrange(2, 6)):
+            vi = rng.randrange(len(vals))
+            ops.append({"op": "put", "k": rng.randrange(3), "v": vi, "t": base.type_for(rng, vals[vi], False)})
+            ops += rng.choice([[{"op": "settle"}], [{"op": "step"}] * rng.randrange(0, 5)])
+        ops += [{"op": "settle"}, {"op": "crash", "tears": []}, {"op": "get", "k": 0}, {"op": "settle"}, {"op": "crash", "tears": []}]
+        cc = mk_case(rng, keys, vals, ops, 16384, rng.choice([1, 25]), "size-limit")
+        cc["cfg"]["max_value_bytes"] = mvb
+        cases.append(cc)
     # every byte prefix of one pending write (overwrite of a completed record), a second file complete
     for rep in range(1 if quick else 12):
         keys = gen_keys(rng, 3, False)
